@@ -6,6 +6,8 @@ CONSTANTS
   QTpl <- QuickQ
   RRTpl <- QuickRR
   OptTpl <- QuickOpt
+  Chain = FALSE
+  EmitFrom = 0
   MaxOps = 6
 INVARIANTS ParseBack Valid Fits Refusal NamesValid
 CONSTRAINT Emit
